@@ -737,6 +737,13 @@ func (g *Gen) genInts(n int) *Term {
 
 func (g *Gen) rangeBound(n int) *Term {
 	r := g.R
+	if g.PureOnly {
+		// bounds taken from the environment may span 2^63 elements (budget)
+		if r.Chance(1, 4) {
+			return must(Len(g.Sc, g.ident(r.Pick([]string{"Ints", "Strs", "S"}))))
+		}
+		return Int(r.Intn(8))
+	}
 	switch r.Intn(6) {
 	case 0:
 		return g.ident(r.Pick([]string{"A", "B", "Z"}))
